@@ -2,8 +2,9 @@
 # C27 — executable model of `oxidize-pdf-core/src/page_labels/{page_label.rs,page_label_tree.rs}`
 
 Hand transcription (import-free).  Rust `u32` values are `Nat`s; the one checked operation that
-can overflow (`self.start + offset` in `PageLabel::format_label`) yields `Res.panic` exactly when
-the debug build panics.  Strings are lists of `Char` (number part, ASCII) / lists of bytes
+could overflow (`self.start + offset` in `PageLabel::format_label`) saturates since repair 707b2902
+(`formatLabelOld` keeps the panicking form); `idx + 1` for pages before the first range still
+yields `Res.panic` exactly when the debug build panics.  Strings are lists of `Char` (number part, ASCII) / lists of bytes
 (prefix, opaque UTF-8).
 
 Also in this file (below the model): the spec side — ISO 32000-1 §12.4.2 Table 159 numbering
@@ -106,8 +107,18 @@ inductive Res
 
 def charsToBytes (cs : List Char) : List Nat := cs.map Char.toNat
 
-/-- `PageLabel::format_label` (`self.start + offset` is a checked `u32` addition) -/
+/-- `PageLabel::format_label`: `self.start.saturating_add(offset)` (repair 707b2902; before it the
+addition was a checked `u32` addition that panicked in a debug build — `formatLabelOld`) -/
 def Label.formatLabel (l : Label) (offset : Nat) : Res :=
+  let label := match l.pfx with
+    | some p => p
+    | Option.none => []
+  if l.style ≠ .none then
+    .label (label ++ charsToBytes (l.style.format (min (l.start + offset) U32_MAX)))
+  else .label label
+
+/-- the same function before repair 707b2902 -/
+def Label.formatLabelOld (l : Label) (offset : Nat) : Res :=
   let label := match l.pfx with
     | some p => p
     | Option.none => []
